@@ -4,7 +4,7 @@
    the API calls; all schedules = all label sequences; repaired code, fixes/C17.patch).
    Specification: spec/SeederSpec.v. *)
 From Coq Require Import NArith List Bool.
-From LV Require Import model.Seeder spec.SeederSpec proofs.SeederProofs proofs.SeederQueues proofs.SeederSessions proofs.SeederLifetime proofs.SeederCounts proofs.SeederRefine.
+From LV Require Import model.Seeder spec.SeederSpec proofs.SeederProofs proofs.SeederQueues proofs.SeederSessions proofs.SeederLifetime proofs.SeederCounts proofs.SeederRefine proofs.SeederLiveness.
 Import ListNotations.
 Local Open Scope N_scope.
 
@@ -160,15 +160,56 @@ Theorem C17_requests_bounded : forall cfg db ops,
     count_serial (r_serial rq) (enqs tr) = i /\ i <= r_chunks rq.
 Proof. exact requests_bounded. Qed.
 
-(* What is not proved (kept visible): progress of the runtime.  All theorems above are safety
-   statements over all schedules; that the reader does return to its select and that every
-   enqueued response is eventually sent needs fair scheduling of the goroutines.  The
-   possibility form (quiescence is reachable from every reachable state) is: *)
+(* Progress under fair scheduling, as a bounded-steps statement about the transition system.
+   A round (SeederLiveness.round) schedules the reader's label once and every sender worker once;
+   labels that are not enabled are skipped.  From every reachable state at most [measure st]
+   rounds (an explicit bound: labels still to be executed) lead to quiescence - reader in select,
+   both channels and all sender queues empty - and then every response the reader produced has
+   been sent.  Hypotheses: at least one sender thread, a positive pending limit.  Fairness is the
+   explicit assumption "every round runs every worker and the reader once"; that the Go
+   scheduler provides it is not proved. *)
+Theorem C17_liveness_bounded : forall v cfg db ops,
+  1 <= c_threads cfg -> 0 < c_limit cfg ->
+  let st := fst (run v cfg db (init cfg) ops) in
+  let tr := snd (run v cfg db (init cfg) ops) in
+  exists k, (k <= measure st)%nat /\
+    let x := rounds k v cfg db (st, tr) in
+    quiescent (fst x) /\ (exists e, snd x = tr ++ e) /\
+    forall inc, sel inc (sents (snd x)) = sel inc (enqs (snd x)).
+Proof. exact liveness_bounded. Qed.
+
+(* ... so the "exactly one done response" clause is not safety-only: under fair rounds the done
+   response of every finished session is actually sent (and by C17_session_content it is the
+   last response of its incarnation, after the whole range). *)
+Theorem C17_done_response_is_sent : forall cfg db ops,
+  sorted_keys db -> 1 <= c_threads cfg -> 0 < c_limit cfg ->
+  let st := fst (run v_fixed cfg db (init cfg) ops) in
+  let tr := snd (run v_fixed cfg db (init cfg) ops) in
+  exists k, (k <= measure st)%nat /\
+    let x := rounds k v_fixed cfg db (st, tr) in
+    quiescent (fst x) /\
+    forall key ss, sess_get key (st_sessions (fst x)) = Some ss -> s_done ss = true ->
+      exists r, In r (sents (snd x)) /\ rs_inc r = s_inc ss /\ rs_done r = true.
+Proof. exact done_response_is_sent. Qed.
+
+(* C17_full of the earlier rounds (quiescence reachable from every reachable state) is the
+   existential weakening of C17_liveness_bounded. *)
 Definition C17_full : Prop :=
-  forall cfg db ops, sorted_keys db -> 1 <= c_threads cfg -> 0 < c_limit cfg ->
-  exists ops',
-    let st := fst (run v_fixed cfg db (init cfg) (ops ++ ops')) in
-    st_reader st = RIdle /\ st_chreq st = [] /\ st_chunreg st = [] /\ concat (st_senders st) = [].
+  forall cfg db ops, 1 <= c_threads cfg -> 0 < c_limit cfg ->
+  exists k, quiescent (fst (rounds k v_fixed cfg db (run v_fixed cfg db (init cfg) ops))).
+Theorem C17_full_holds : C17_full.
+Proof.
+  intros cfg db ops H1 H2. destruct (liveness_bounded v_fixed cfg db ops H1 H2) as [k [_ [Hq _]]].
+  exists k. destruct (run v_fixed cfg db (init cfg) ops). exact Hq.
+Qed.
+
+(* the hypotheses are satisfiable and the bound is not trivial *)
+Example C17_liveness_nonvacuous :
+  let st := fst (run v_fixed w_cfg w_db (init w_cfg)
+                     [ORequest (mkReq 1 1 0 9 3 100 2 0); OReadReq; OReader; OReader]) in
+  ~ quiescent st /\ measure st = 12%nat /\
+  quiescent (fst (rounds 8 v_fixed w_cfg w_db (st, []))).
+Proof. vm_compute. split; [intros [H _]; discriminate|]. split; [reflexivity|]. repeat split. Qed.
 
 Print Assumptions C17_limits.
 Print Assumptions C17_session_content.
@@ -181,5 +222,8 @@ Print Assumptions C17_lifetime_simulation.
 Print Assumptions C17_requests_complete.
 Print Assumptions C17_requests_bounded.
 Print Assumptions C17_requests_never_exceed.
+Print Assumptions C17_liveness_bounded.
+Print Assumptions C17_done_response_is_sent.
+Print Assumptions C17_full_holds.
 Print Assumptions C17_pending_bound.
 Print Assumptions C17_fifo.
